@@ -530,6 +530,90 @@ Section Combos.
     - intros (p & Hp & Ek). destruct (all_combinations_complete_gen b1 b2 p Hp) as (c & Hc & E).
       exists c. split; [congruence|exact Hc].
   Qed.
+
+  (** ---- ckk_children: the combinations de-duplicated once more by their sums ---- *)
+  Lemma existsb_sums_In (k : list Z) seen : existsb (list_eqb Z.eqb k) seen = true <-> In k seen.
+  Proof.
+    rewrite existsb_exists. split.
+    - intros (k' & Hk & E). apply (list_eqb_eq Z.eqb Z.eqb_eq) in E. subst. exact Hk.
+    - intros H. exists k. split; [exact H|apply (list_eqb_eq Z.eqb Z.eqb_eq); reflexivity].
+  Qed.
+
+  Lemma dedup_sums_unfold seen (b : bins A) t :
+    dedup_sums seen (b :: t) =
+    if existsb (list_eqb Z.eqb (sums b)) seen then dedup_sums seen t
+    else b :: dedup_sums (sums b :: seen) t.
+  Proof. reflexivity. Qed.
+
+  Lemma dedup_sums_sound (l : list (bins A)) : forall seen c, In c (dedup_sums seen l) -> In c l.
+  Proof.
+    induction l as [|b t IH]; intros seen c H; [destruct H|].
+    rewrite dedup_sums_unfold in H. destruct (existsb (list_eqb Z.eqb (sums b)) seen).
+    - right. eapply IH. exact H.
+    - destruct H as [H|H]; [left; exact H|right; eapply IH; exact H].
+  Qed.
+
+  Lemma dedup_sums_fresh (l : list (bins A)) : forall seen c,
+    In c (dedup_sums seen l) -> ~ In (sums c) seen.
+  Proof.
+    induction l as [|b t IH]; intros seen c H; [destruct H|].
+    rewrite dedup_sums_unfold in H. destruct (existsb (list_eqb Z.eqb (sums b)) seen) eqn:E.
+    - eapply IH. exact H.
+    - destruct H as [H|H].
+      + subst c. intros Hin. apply existsb_sums_In in Hin. congruence.
+      + apply IH in H. intros Hin. apply H. right. exact Hin.
+  Qed.
+
+  Lemma dedup_sums_complete (l : list (bins A)) : forall seen c, In c l ->
+    In (sums c) seen \/ exists c', In c' (dedup_sums seen l) /\ sums c' = sums c.
+  Proof.
+    induction l as [|b t IH]; intros seen c H; [destruct H|].
+    rewrite dedup_sums_unfold. destruct (existsb (list_eqb Z.eqb (sums b)) seen) eqn:E.
+    - destruct H as [H|H].
+      + subst c. left. apply existsb_sums_In. exact E.
+      + apply IH. exact H.
+    - destruct H as [H|H].
+      + subst c. right. exists b. split; [left; reflexivity|reflexivity].
+      + destruct (IH (sums b :: seen) c H) as [[Hk|Hk]|(c' & Hc' & Ek)].
+        * right. exists b. split; [left; reflexivity|exact Hk].
+        * left. exact Hk.
+        * right. exists c'. split; [right; exact Hc'|exact Ek].
+  Qed.
+
+  Lemma dedup_sums_nodup (l : list (bins A)) : forall seen, NoDup (map sums (dedup_sums seen l)).
+  Proof.
+    induction l as [|b t IH]; intros seen; [constructor|].
+    rewrite dedup_sums_unfold. destruct (existsb (list_eqb Z.eqb (sums b)) seen).
+    - apply IH.
+    - cbn [map]. constructor; [|apply IH].
+      intros Hin. apply in_map_iff in Hin. destruct Hin as (c & Ek & Hc).
+      apply dedup_sums_fresh in Hc. apply Hc. left. symmetry. exact Ek.
+  Qed.
+
+  (** the children of a CKK node are combinations ... *)
+  Theorem ckk_children_sound b1 b2 c :
+    In c (ckk_children nameof keep b1 b2) -> In c (all_combinations nameof keep b1 b2).
+  Proof. unfold ckk_children. apply dedup_sums_sound. Qed.
+
+  (** ... every combination is represented, up to its sums ... *)
+  Theorem ckk_children_complete b1 b2 c :
+    In c (all_combinations nameof keep b1 b2) ->
+    exists c', In c' (ckk_children nameof keep b1 b2) /\ sums c' = sums c.
+  Proof.
+    intros H. unfold ckk_children.
+    destruct (dedup_sums_complete _ [] c H) as [[]|H']. exact H'.
+  Qed.
+
+  (** ... and no two children have the same sums *)
+  Theorem ckk_children_nodup b1 b2 : NoDup (map sums (ckk_children nameof keep b1 b2)).
+  Proof. unfold ckk_children. apply dedup_sums_nodup. Qed.
+
+  Lemma ckk_children_nonempty b1 b2 :
+    all_combinations nameof keep b1 b2 <> [] -> ckk_children nameof keep b1 b2 <> [].
+  Proof.
+    unfold ckk_children. destruct (all_combinations nameof keep b1 b2) as [|c t]; [congruence|].
+    intros _. rewrite dedup_sums_unfold. cbn [existsb]. discriminate.
+  Qed.
 End Combos.
 
 (** non-vacuity: the two Python doctests of all_combinations *)
@@ -574,3 +658,6 @@ Print Assumptions all_combinations_complete_gen.
 Print Assumptions all_combinations_nodup.
 Print Assumptions all_combinations_nodup_bins.
 Print Assumptions all_combinations_keys.
+Print Assumptions ckk_children_sound.
+Print Assumptions ckk_children_complete.
+Print Assumptions ckk_children_nodup.
